@@ -118,6 +118,29 @@ def run_one(rng, tmp, i):
         except Exception:  # noqa: BLE001, S110
             pass  # entries with '.dir' hashes that are not in the store cannot be expanded: not this property's subject
         sidx.commit()
+    # in-session histories on the SQLite-backed form: fetch an entry back, change it in place, store it again; delete an entry
+    # below a loaded directory; roll a store back and repeat it
+    keys = [k for k, _ in sidx.iteritems()]
+    if keys and rng.random() < 0.6:
+        k = rng.choice(keys)
+        e = sidx[k]
+        if not (e.meta and e.meta.isdir):
+            e.meta = Meta(size=rng.choice([0, 11]), isexec=not (e.meta.isexec if e.meta else False))
+            e.loaded = rng.choice([None, True])
+            sidx[k] = e
+            sidx.commit()
+    if rng.random() < 0.3:
+        k2 = ("rolled", "bäck")
+        ent = DataIndexEntry(key=k2, meta=Meta(size=0), hash_info=HashInfo("md5", md5(b"r")))
+        sidx[("rolled",)] = DataIndexEntry(key=("rolled",), meta=Meta(isdir=True), loaded=True)
+        sidx.commit()
+        sidx[k2] = ent
+        sidx.rollback()
+        sidx[k2] = ent
+        sidx.commit()
+    if ("data", "bar") in sidx and rng.random() < 0.5:
+        del sidx[("data", "bar")]
+        sidx.commit()
     before = snapshot(sidx)
     sidx.close()
     again = DataIndex.open(ps)
@@ -132,10 +155,13 @@ def main():
     failures = []
     with tempfile.TemporaryDirectory(dir="/var/tmp") as tmp:
         for i in range(n):
-            failures += run_one(rng, tmp, i)
+            try:
+                failures += run_one(rng, tmp, i)
+            except Exception as e:  # noqa: BLE001
+                failures.append({"problems": [f"raised {type(e).__name__}: {str(e)[:120]}"]})
     print(json.dumps({"evaluations": n, "distinct_nontrivial": n, "n_failures": len(failures), "failures": failures[:4],
                       "bound": f"{n} seeded indexes: <= 6 entries, depth <= 3, non-ASCII parts, optional meta/hash/loaded, false-y values; "
-                               "json, key-value db, sqlite with commit/close/reopen and a lazily loaded directory object"}))
+                               "json, key-value db, sqlite with commit/close/reopen, a lazily loaded directory object, in-place updates, rollback + repeat, deletions below a loaded directory"}))
 
 
 if __name__ == "__main__":
